@@ -302,3 +302,9 @@ def r_sib_r_c04_9(ctx):
     from .c03 import r6 as timeout_leaves_state
     timeout_leaves_state(ctx)
 
+
+
+@rule("R-C04-10", min_instances=3, title="a message of any number of fragments is reassembled: taking the next fragment costs no stack level (the receive loop iterates, it does not call itself)")
+def r_sib_r_c04_10(ctx):
+    from .c07 import r7 as loop_not_recursion
+    loop_not_recursion(ctx)
